@@ -59,4 +59,20 @@ for u in (0.5, 0.93, 0.97, 0.995, 0.9999):
     if not ok:
         bad = [int(i) for i in _np.nonzero(~_np.isfinite(x) | ~_np.isclose(rv, src * 100.0))[0][:3]]
         fails.append({"weights": "1000 log weights ~ N(-3000, 2) (float32)", "method": "systematic", "u": u, "output_particles_that_are_no_copy_of_an_input_particle": bad, "their_x": [float(x[i]) for i in bad]})
+# particles whose weight is exactly 0 (log weight -inf: a hard-zero likelihood) still count in the average weight:
+# log_marginal_likelihood = estimate + log( (1/N) sum_i w_i ), for every N and every number of dead particles
+for lw_list in ([0.3, -jnp.inf, -0.7, -jnp.inf], [-jnp.inf, 0.1], [0.2, 0.4, -jnp.inf]):
+    n = len(lw_list)
+    lw = jnp.asarray(lw_list)
+    tr = Tr(f, ((), {}), {"x": jnp.arange(n) * 10.0}, jnp.arange(n) * 100.0, jnp.arange(n) * 1.0)
+    pc = S.ParticleCollection(traces=tr, log_weights=lw, diagnostic_weights=lw, n_samples=const(n), log_marginal_estimate=jnp.array(0.7))
+    want = 0.7 + math.log(sum(math.exp(v) for v in lw_list if v != -jnp.inf) / n)
+    got = float(pc.log_marginal_likelihood())
+    if abs(got - want) > 1e-5:
+        fails.append({"weights": [str(v) for v in lw_list], "function": "log_marginal_likelihood", "observed": got, "required": want})
+    U["u"] = None
+    r = S.resample(pc, method="categorical")
+    got_r = float(r.log_marginal_estimate)
+    if abs(got_r - want) > 1e-5:
+        fails.append({"weights": [str(v) for v in lw_list], "function": "resample -> log_marginal_estimate", "observed": got_r, "required": want})
 emit({"confirmed": bool(fails), "tier": "native+substitute(uniform,categorical)", "failures": fails[:3]})
